@@ -139,7 +139,7 @@ _TOKEN = re.compile(r"""
   | (?P<num>\d+)
   | (?P<id>[A-Za-z_$][A-Za-z0-9_$]*)
   | (?P<str>"[^"]*")
-  | (?P<op><<<|>>>|<=|>=|==|!=|[-+*&|^~<>?:,;(){}\[\]=@.\#`])
+  | (?P<op><<<|>>>|<=|>=|==|!=|[-+*&|^~<>?:,;(){}\[\]=@.\#`!])
 """, re.X | re.S)
 
 VBIN = {"+": "add", "-": "sub", "*": "mul", "<<<": "shl", ">>>": "shr", "&": "and", "^": "xor", "|": "or",
@@ -173,6 +173,7 @@ class VParser:
         self.t = toks
         self.p = 0
         self.names = names
+        self.mems = {}
 
     def peek(self, k=0):
         return self.t[self.p + k] if self.p + k < len(self.t) else ("eof", "")
@@ -224,6 +225,10 @@ class VParser:
             self.next()
             out += ["u", "not"]
             self.operand(out)
+        elif k == "op" and v == "!":
+            self.next()
+            out += ["u", "lnot"]
+            self.operand(out)
         else:
             self.primary(out)
 
@@ -241,6 +246,12 @@ class VParser:
             base += ["g"]
             self.expr(base)
             self.expect(")")
+        elif k == "id" and v in getattr(self, "mems", {}):
+            mi, mw, md = self.mems[v]
+            self.expect("[")
+            base += ["M", str(mi), str(mw)]
+            self.expr(base)
+            self.expect("]")
         elif k == "id":
             if v not in self.names:
                 raise ParseError("unknown identifier %r" % v)
@@ -540,6 +551,7 @@ class ModuleText:
         self.order = []        # declaration order
         self.items = []        # token lists: ["assign", ...] | ["comb", n, ...] | ["sync", clk, n, ...]
         self.unsupported = []  # descriptions of constructs outside the modelled subset
+        self.mems = {}         # name -> dict(id, w, depth, init_file)
 
 
 class ModParser(VParser):
@@ -548,6 +560,7 @@ class ModParser(VParser):
         VParser.__init__(self, toks, {})
         self.name_ids = name_ids
         self.mt = ModuleText()
+        self.allow_new = False     # set for memory modules: address/data registers of memory.py are not in the namespace
 
     def sign_range(self):
         signed = False
@@ -570,7 +583,9 @@ class ModParser(VParser):
         if name in self.mt.decls:
             raise ParseError("duplicate declaration of %s" % name)
         if name not in self.name_ids:
-            raise ParseError("declared name %s unknown to the namespace" % name)
+            if not self.allow_new:
+                raise ParseError("declared name %s unknown to the namespace" % name)
+            self.name_ids[name] = max(list(self.name_ids.values()) + [-1]) + 1
         self.mt.decls[name] = dict(kind=kind, w=w, s=s, init=init)
         self.mt.order.append(name)
         self.names[name] = (self.name_ids[name], w, s)
@@ -604,8 +619,21 @@ class ModParser(VParser):
                 w, s = self.sign_range()
                 name = self.next()[1]
                 if self.peek() == ("op", "["):
-                    self.mt.unsupported.append("memory array " + name)
-                    self.skip_to(";")
+                    if not self.allow_new:
+                        self.mt.unsupported.append("memory array " + name)
+                        self.skip_to(";")
+                        continue
+                    self.next()
+                    lo = int(self.next()[1])
+                    self.expect(":")
+                    hi = int(self.next()[1])
+                    self.expect("]")
+                    self.expect(";")
+                    if lo != 0:
+                        raise ParseError("memory range")
+                    mid = len(self.mt.mems)
+                    self.mt.mems[name] = dict(id=mid, w=w, depth=hi + 1, init_file=None)
+                    self.mems[name] = (mid, w, hi + 1)
                     continue
                 init = None
                 if self.accept("="):
@@ -643,6 +671,18 @@ class ModParser(VParser):
                     if clk not in self.names:
                         raise ParseError("unknown clock %s" % clk)
                     self.mt.items.append(["sync", str(self.names[clk][0]), str(n)] + body)
+            elif v == "initial" and self.allow_new:
+                self.next()
+                self.expect("begin")
+                self.expect("$readmemh")
+                self.expect("(")
+                fn = self.next()[1].strip('"')
+                self.expect(",")
+                mname = self.next()[1]
+                self.expect(")")
+                self.expect(";")
+                self.expect("end")
+                self.mt.mems[mname]["init_file"] = fn
             elif v == "initial":
                 self.mt.unsupported.append("initial block")
                 self.skip_block()
@@ -696,6 +736,12 @@ class ModParser(VParser):
             out += ["f"]
             self.expr(out)
             self.expect(")")
+            if self.peek()[1] != "begin":
+                # single-statement form (memory.py)
+                body = []
+                self.stmt(body)
+                out += ["1"] + body + ["0", "0"]
+                return
             self.expect("begin")
             body = []
             n = self.stmts(body, ("end",))
@@ -761,10 +807,12 @@ def strip_prolog(text):
     return text[m.start():]
 
 
-def parse_module(text, name_ids):
+def parse_module(text, name_ids, allow_memories=False):
     toks = lex(strip_prolog(text))
-    p = ModParser(toks, name_ids)
+    p = ModParser(toks, dict(name_ids) if allow_memories else name_ids)
+    p.allow_new = allow_memories
     mt = p.module()
+    mt.name_ids = p.name_ids
     return mt
 
 
@@ -1043,7 +1091,7 @@ def public_signals(dut):
     return out
 
 
-def prepare(dut):
+def prepare(dut, allow_memories=False):
     """Fragment + clock domains + io list for a DUT.  ios = every undriven signal (driven by the harness) plus
     the driven signals that are public attributes of the DUT.  Returns (fragment, ios list, clock names) or
     raises Unsupported (specials)."""
@@ -1052,7 +1100,9 @@ def prepare(dut):
     pub = public_signals(dut)
     f = dut.get_fragment()
     from migen.genlib.cdc import MultiReg
-    bad = [s for s in f.specials if not isinstance(s, MultiReg)]
+    from migen.fhdl.specials import Memory, _MemoryPort
+    ok_types = (MultiReg, Memory, _MemoryPort) if allow_memories else (MultiReg,)
+    bad = [s for s in f.specials if not isinstance(s, ok_types)]
     if bad:
         raise Unsupported("specials: " + ", ".join(sorted({type(s).__name__ for s in bad})))
     cds = sorted(list_clock_domains(f))
@@ -1134,6 +1184,9 @@ def build_vtree(toks, pos=0):
     if t == "g":
         a, p = build_vtree(toks, pos + 1)
         return VNode("signed", a), p
+    if t == "M":
+        a, p = build_vtree(toks, pos + 3)
+        return VNode("mem", (int(toks[pos + 1]), int(toks[pos + 2]), a)), p
     raise ParseError("bad token " + t)
 
 
@@ -1148,6 +1201,9 @@ def v_size(n):
         n.w, n.s = n.a[0], n.a[1]
     elif k == "id":
         n.w, n.s = n.a[1], n.a[2]
+    elif k == "un" and n.a[0] == "lnot":
+        v_size(n.a[1])
+        n.w, n.s = 1, False
     elif k == "un":
         v_size(n.a[1])
         n.w, n.s = n.a[1].w, n.a[1].s
@@ -1180,6 +1236,9 @@ def v_size(n):
     elif k == "signed":
         v_size(n.a)
         n.w, n.s = n.a.w, True
+    elif k == "mem":
+        v_size(n.a[2])
+        n.w, n.s = n.a[1], False
     return n
 
 
@@ -1201,6 +1260,13 @@ def v_eval(n, env, W, sg):
         return _extend(n.a[2] & ((1 << n.w) - 1), n.w, W, sg)
     if k == "id":
         return _extend(env[n.a[0]] & ((1 << n.w) - 1), n.w, W, sg)
+    if k == "un" and n.a[0] == "lnot":
+        a = n.a[1]
+        return _extend(int(v_eval(a, env, a.w, a.s) == 0), 1, W, sg)
+    if k == "mem":
+        idx = v_eval(n.a[2], env, n.a[2].w, n.a[2].s)
+        words = env[("mem", n.a[0])]
+        return _extend(words[idx] if idx < len(words) else 0, n.w, W, sg)
     if k == "un":
         x = v_eval(n.a[1], env, W, sg)
         return (-x) & M if n.a[0] == "neg" else (~x) & M
@@ -1373,9 +1439,16 @@ class PyVSim:
     """Independent reading of a parsed module (ModuleText): non-blocking procedural semantics, comb re-evaluated
     to a fix-point, posedge blocks on request.  State: id -> bits."""
 
-    def __init__(self, mt, name_ids):
+    def __init__(self, mt, name_ids, data_files=None):
         self.w = {}
         self.state = {}
+        for mname, md in mt.mems.items():
+            words = [0] * md["depth"]
+            if md["init_file"] is not None:
+                content = (data_files or {})[md["init_file"]]
+                for k, line in enumerate(content.split()):
+                    words[k] = int(line, 16) & ((1 << md["w"]) - 1)
+            self.state[("mem", md["id"])] = words
         for name, d in mt.decls.items():
             i = name_ids[name]
             self.w[i] = d["w"]
@@ -1435,7 +1508,14 @@ class PyVSim:
 
     def lhs_parts(self, l, v, out):
         """Split the value over the target(s): list of (id, lo, len, bits)."""
-        if l.k == "id":
+        if l.k == "mem":
+            idx = v_eval(l.a[2], self.state, l.a[2].w, l.a[2].s)
+            out.append((("mem", l.a[0], idx), 0, l.w, v & ((1 << l.w) - 1)))
+        elif l.k == "psel" and l.a[2].k == "mem":
+            m = l.a[2]
+            idx = v_eval(m.a[2], self.state, m.a[2].w, m.a[2].s)
+            out.append((("mem", m.a[0], idx), l.a[1], l.w, v & ((1 << l.w) - 1)))
+        elif l.k == "id":
             out.append((l.a[0], 0, l.w, v & ((1 << l.w) - 1)))
         elif l.k == "psel" and l.a[2].k == "id":
             out.append((l.a[2].a[0], l.a[1], l.w, v & ((1 << l.w) - 1)))
@@ -1470,8 +1550,17 @@ class PyVSim:
     def apply(self, upd):
         changed = False
         for i, lo, ln, bits in upd:
-            cur = self.state[i]
             mask = ((1 << ln) - 1) << lo
+            if isinstance(i, tuple):
+                words = self.state[("mem", i[1])]
+                if i[2] < len(words):
+                    cur = words[i[2]]
+                    new = (cur & ~mask) | ((bits << lo) & mask)
+                    if new != cur:
+                        words[i[2]] = new
+                        changed = True
+                continue
+            cur = self.state[i]
             new = ((cur & ~mask) | ((bits << lo) & mask)) & ((1 << self.w[i]) - 1)
             if new != cur:
                 self.state[i] = new
